@@ -115,6 +115,10 @@ def main():
     sub = [nd[t] for t in sorted(nd)][::max(1, len(nd) // 250)]
     pipeline.check_decks(chk, sub, lambda d, r: [[f for f in common_univ.FLAGS if r.random() < 0.4]], chk.seed)
     chk.cov['traces_validated_against_impl'] += chk.extra.get('pipeline_traces', 0)
+    # one universe placed twice with different general rotations, under the inlining / de-duplication options
+    from . import turned
+    turned.run(chk, chk.tier == 'thorough', chk.seed + 5, n=300 if chk.tier == 'thorough' else 30,
+               optsets=lambda d, r: [[], [f for f in common_univ.FLAGS if r.random() < 0.5]])
     if chk.tier == 'thorough':
         # FILL development as a design: PipelineD2 model-checked, every behaviour replayed into the code
         try:
